@@ -608,6 +608,7 @@ class Check(BaseCheck):
                 xpairs=[(o, i) for o in ('H_RTZ', 'S_RTP', 'D_RNE', 'INT') for i in ('H_RTN', 'D_RTZ', 'I_RNE')],
                 scalars=SCALARS_QUICK, lists=LISTS,
                 rcores=dict(funcs=['none', 'P32', 'Rz', 'P32Rz'], anns=list(G.R_ANN), nested=G.R_NESTED),
+                vouters=['H_RTZ', 'D_RNE'],
             )
             # seed-rotated extra slice of the next bound (size-4 skeletons), on top of the complete core
             plan['slice'] = dict(sizes=(4,), depth=3, kinds=allk, outer=['H_RTZ'], inner=['D_RNE'],
@@ -627,6 +628,7 @@ class Check(BaseCheck):
                 scalars=SCALARS_QUICK + SCALARS_MORE,
                 lists={k: LISTS[k] + LISTS_MORE.get(k, []) for k in LISTS},
                 rcores=dict(funcs=list(G.R_FUNC_PROPS), anns=list(G.R_ANN), nested=G.R_NESTED),
+                vouters=['H_RTZ', 'D_RNE', 'S_RTP', 'INT', 'H_RNE'],
             )
         return plan
 
@@ -645,6 +647,7 @@ class Check(BaseCheck):
                 if i % p['stride'] == p['offset']:
                     yield prog
         yield from G.template_programs(list(G.TEMPLATES), plan['pairs'])
+        yield from G.intro_programs(plan['vouters'], 'D_RNE')
         yield from G.extra_programs(plan['xpairs'])
 
     def inputs(self, sig: str):
@@ -698,6 +701,8 @@ class Check(BaseCheck):
                            'nested': [f'{a}>{b_}' for a, b_ in plan['rcores']['nested']],
                            'shapes': [n for n, _ in G.R_SHAPES_1 + G.R_SHAPES_2],
                            'inputs': len(self.core_inputs())}
+        b['intro_family'] = {'names': list(G.V_NAMES), 'mutated': [''.join(m) for m in G.V_MUTATED],
+                             'places': list(G.V_PLACES), 'outer': plan['vouters']}
         b['template_pairs'] = len(plan['pairs'])
         b['templates'] = list(G.TEMPLATES)
         b['scalar_inputs'] = len(plan['scalars'])
